@@ -8,7 +8,7 @@ checks = sys.argv[4:]
 dst = os.path.join('/verif/seeded', name)
 os.makedirs(dst, exist_ok=True)
 for f in ('patch.diff', 'demo.py', 'notes.md'):
-    if os.path.exists(os.path.join(src, f)):
+    if os.path.exists(os.path.join(src, f)) and os.path.abspath(src) != os.path.abspath(dst):
         shutil.copy(os.path.join(src, f), os.path.join(dst, f))
 patch = os.path.join(dst, 'patch.diff')
 
@@ -42,5 +42,15 @@ else:
 meta['caught_by'] = [c for c, r in meta.get('checks_with_change', {}).items() if r['exit'] == 1]
 if os.path.exists(os.path.join(dst, 'notes.md')):
     meta['needs_to_manifest'] = open(os.path.join(dst, 'notes.md')).read()[:1500]
+try:
+    old = json.load(open(os.path.join(dst, 'meta.json')))
+    for k in ('baseline_with_change', 'history'):
+        if k in old and k not in meta:
+            meta[k] = old[k]
+    if old.get('caught_by') != meta.get('caught_by') and old.get('evaluated_at'):
+        meta.setdefault('history', []).append({'evaluated_at': old.get('evaluated_at'), 'repo_head': old.get('repo_head'),
+                                               'caught_by': old.get('caught_by')})
+except Exception:
+    pass
 json.dump(meta, open(os.path.join(dst, 'meta.json'), 'w'), indent=1)
 print(json.dumps({k: v for k, v in meta.items() if k != 'needs_to_manifest'}, indent=1)[:2500])
